@@ -354,10 +354,27 @@ func buildResourceTrafficShapingController(res string, resRules []*Rule, oldResT
 	// they must not donate their statistic to a modified rule that happens to be listed earlier,
 	// otherwise the unchanged rule is rebuilt from scratch and loses its runtime state.
 	reserved := make(map[TrafficShapingController]bool, len(oldResTcs))
-	for _, rule := range resRules {
+	matched := make([]bool, len(resRules))
+	for i, rule := range resRules {
 		for _, oldTc := range oldResTcs {
 			if !reserved[oldTc] && oldTc.BoundRule().Equals(rule) {
 				reserved[oldTc] = true
+				matched[i] = true
+				break
+			}
+		}
+	}
+	// A modified rule - no equal old rule, but an old rule with the same (non-empty) ID whose metric it
+	// can take over - keeps ITS OWN counters: that old controller is held back for it, so that another
+	// new or modified rule listed earlier cannot take it, and it is preferred over other donors.
+	keptFor := make(map[TrafficShapingController]*Rule)
+	for i, rule := range resRules {
+		if matched[i] || rule.ID == "" {
+			continue
+		}
+		for _, oldTc := range oldResTcs {
+			if !reserved[oldTc] && keptFor[oldTc] == nil && oldTc.BoundRule().ID == rule.ID && oldTc.BoundRule().IsStatReusable(rule) {
+				keptFor[oldTc] = rule
 				break
 			}
 		}
@@ -372,9 +389,14 @@ func buildResourceTrafficShapingController(res string, resRules []*Rule, oldResT
 		if equalIdx < 0 {
 			reuseStatIdx = -1
 			for idx, oldTc := range oldResTcs {
-				if !reserved[oldTc] && oldTc.BoundRule().IsStatReusable(rule) {
+				if reserved[oldTc] || !oldTc.BoundRule().IsStatReusable(rule) {
+					continue
+				}
+				if owner := keptFor[oldTc]; owner == rule {
 					reuseStatIdx = idx
 					break
+				} else if owner == nil && reuseStatIdx < 0 {
+					reuseStatIdx = idx
 				}
 			}
 		}
